@@ -16,8 +16,20 @@ CLAIMED = {
  "C18": ("exploration", "mint / distribution / withdrawal / send events vs coinbase events, exact model assignments and per-pool ledger deltas", "runtime monitoring: event log checked offline against observed state changes"),
  "C19": ("exploration", "generated emission configurations x supplies x ms-aligned probe instants; |minted - I*S*dt/year| <= rigorous slack; zero-inflation states", "runtime monitoring: query answer vs observed emission over the next block, big.Rat oracle"),
 }
+
+CLAIMED.update({
+ "C01": ("exploration", "full-application ABCI histories: generated emission x sub-distributor configuration with vesting/bank/staking traffic, governance updates, signature messages; per block supply delta == coinbase - burn events, coinbase == exact schedule, burn == exact distributor model's payout, supply == sum of balances, messages/EndBlock never move supply", "runtime monitoring: conservation ledger over bank events + reference models (big.Rat) next to the real code"),
+ "C10": ("fault_enumeration", "full-application histories with governance updates at random points (all 7 update messages, times moved into past/future, periods dropped/appended, odd denominations), persistent transfer failures, and a genesis export -> fresh InitChain mid-history with both replicas continuing; no panic may escape BeginBlock/EndBlock/Commit", "runtime monitoring: recover() around ABCI calls over enumerated update/restart points and persistent natural faults"),
+ "C11": ("exploration", "recorded histories (genesis, headers, tx bytes, governance and signature executions) replayed on a second application in-process and on fresh applications in separate OS processes; per-height digests of results, events and app hash must be byte-equal", "runtime monitoring: replica replay with per-height result digests (new process = new hash seeds); race-detector pass in thorough"),
+ "C12": ("exploration", "export at random heights (also right after burns / period hand-overs): exported custom sections validate, InitChain does not panic, re-export is identical, custom stores are equal, original and restored app agree on 10-25 further blocks (balances, mint, tx codes, queries)", "runtime monitoring: state/behaviour equality between the original and the application restored from its exported genesis"),
+ "C13": ("exploration", "sequences of all seven parameter-update messages with valid / invalid / only-jointly-invalid payloads and gov / foreign / empty / malformed authorities, through the governance path and real signed DeliverTx; stored params stay valid, rejected updates change nothing", "runtime monitoring: params-store byte comparison and the modules' own Validate() on every stored value"),
+ "C15": ("exploration", "harness-generated ECDSA/RSA certificates; valid records and every single-field mutation stored through the real message server; independent crypto verification decides the expected VerifySignature answer; write-once links checked after every message and across commits", "runtime monitoring: independent verifier (crypto/ecdsa, crypto/rsa) as oracle + raw-store write-once monitor"),
+ "C16": ("exploration", "pre-upgrade states staged in the previous store/param formats on the real app, registered v1.2.0 handler run through UpgradeKeeper.ApplyUpgrade; locked totals, pool histories, solvency, split all-or-nothing, shifted accounts, migrated params compared field for field", "runtime monitoring: before/after state comparison around the real upgrade handler on generated legacy states"),
+ "C20": ("exploration", "reflection-driven boundary-value filling of every message type and query request of the four modules against populated and degraded states; ValidateBasic, GetSigners, handlers, signed-transaction route and queriers under recover; worker crash = violation", "runtime monitoring: panic detection (recover + ErrPanic results + process isolation) over generated hostile inputs"),
+})
 NOTES = {
  "C14": "injected faults fail before touching state; natural partial failures are covered by the locked-coin source of the generator",
+ "C12": "one recorded finding (K1, /verif/known_findings.json): cfesignature genesis drops its store; everything else must be equal",
 }
 
 props = [json.loads(l) for l in open('/verif/properties.jsonl')]
@@ -43,7 +55,7 @@ hooks = {"guard": "verif", "enable": "go build -tags verif (the harness imports 
 m = {"version": 1, "setup_cmd": "./setup.sh", "hooks": hooks,
      "engines": [{"name": "verifharness", "path": "/verif/harness", "serves_properties": sorted(CLAIMED), "kind_free_text": "Go: in-process ABCI driver over the real app, seeded generators, reference models, per-property monitors, worker-process isolation"}],
      "checks": checks,
-     "not_applicable": [{"property_id": p['id'], "reason": "monitor under construction in this session (see DESIGN.md §3); not claimed until it runs silent"} for p in props if p['id'] not in CLAIMED],
+     "not_applicable": [{"property_id": p['id'], "reason": "not claimed"} for p in props if p['id'] not in CLAIMED],
      "notes": "every check rebuilds the harness against /repo's working tree; exit 0 held, 1 violation (VIOLATION line + replay file), 2 inconclusive"}
 json.dump(m, open('/verif/MANIFEST.json', 'w'), indent=1)
 print("claimed:", sorted(CLAIMED))
